@@ -32,26 +32,47 @@
 (***************************************************************************)
 EXTENDS Integers, FiniteSets, Sequences, TLC
 
-CONSTANTS Waiters,    \* waiter ids (strings)
-          Codes,      \* message codes explored, a subset of 0..255
-          TableSize,  \* size of the table of condition variables (40)
-          WaitCode,   \* code of the wait request itself (35)
-          Vias,       \* subset of BOOLEAN: FALSE = Server.Wait/Broadcast called directly, TRUE = through ServeAgent
-          MaxReq,     \* bound on the number of request steps
-          MaxBatch,   \* how many requests may arrive together in one request step
-          Hist,       \* TRUE: keep the request log (history variables reqlog, parkedAt); FALSE: leave them empty
-          SplitReg    \* TRUE: Call and Park are separate steps; FALSE: Register / Race (what a harness can drive)
+CONSTANTS
+  \* @type: Set(Str);
+  Waiters,    \* waiter ids (strings)
+  \* @type: Set(Int);
+  Codes,      \* message codes explored, a subset of 0..255
+  \* @type: Int;
+  TableSize,  \* size of the table of condition variables (40)
+  \* @type: Int;
+  WaitCode,   \* code of the wait request itself (35)
+  \* @type: Set(Bool);
+  Vias,       \* subset of BOOLEAN: FALSE = Server.Wait/Broadcast called directly, TRUE = through ServeAgent
+  \* @type: Int;
+  MaxReq,     \* bound on the number of request steps
+  \* @type: Int;
+  MaxBatch,   \* how many requests may arrive together in one request step
+  \* @type: Bool;
+  Hist,       \* TRUE: keep the request log (history variables reqlog, parkedAt); FALSE: leave them empty
+  \* @type: Bool;
+  SplitReg    \* TRUE: Call and Park are separate steps; FALSE: Register / Race (what a harness can drive)
 
-VARIABLES via,        \* which binding this behaviour describes
-          reg,        \* [Waiters -> Codes \cup {NoCode}] the code a waiter asked for
-          called,     \* Wait invoked, not yet parked
-          waiting,    \* [InRange -> SUBSET Waiters] parked on the table entry of a code
-          released,   \* woken, Wait has not returned yet
-          returned,   \* Wait has returned
-          reqlog,     \* sequence of the sets of codes that arrived, wait frames included
-          parkedAt,   \* Len(reqlog) at the moment a waiter parked
-          nreq,       \* number of request steps so far
-          last        \* label of the last step
+VARIABLES
+  \* @type: Bool;
+  via,        \* which binding this behaviour describes
+  \* @type: Str -> Int;
+  reg,        \* [Waiters -> Codes \cup {NoCode}] the code a waiter asked for
+  \* @type: Set(Str);
+  called,     \* Wait invoked, not yet parked
+  \* @type: Int -> Set(Str);
+  waiting,    \* [InRange -> SUBSET Waiters] parked on the table entry of a code
+  \* @type: Set(Str);
+  released,   \* woken, Wait has not returned yet
+  \* @type: Set(Str);
+  returned,   \* Wait has returned
+  \* @type: Seq(Set(Int));
+  reqlog,     \* sequence of the sets of codes that arrived, wait frames included
+  \* @type: Str -> Int;
+  parkedAt,   \* Len(reqlog) at the moment a waiter parked
+  \* @type: Int;
+  nreq,       \* number of request steps so far
+  \* @type: { op: Str, ws: Set(Str), cs: Set(Int), rel: Set(Str), n: Int, pan: Bool };
+  last        \* label of the last step
 
 state == <<via, reg, called, waiting, released, returned>>
 hist  == <<reqlog, parkedAt, nreq>>
@@ -61,8 +82,11 @@ NoCode  == -1
 InRange == Codes \cap (0 .. (TableSize - 1))    \* the explored codes that have an entry in the table
 InR(c)  == c \in InRange
 
+\* @type: (Int -> Set(Str)) => Set(Str);
 AllOf(wt)  == UNION {wt[c] : c \in InRange}
+\* @type: (Int -> Set(Str), Set(Int)) => Set(Str);
 HitOf(wt, cs) == UNION {wt[c] : c \in cs \cap InRange}
+\* @type: (Int -> Set(Str), Set(Int)) => (Int -> Set(Str));
 Clear(wt, cs) == [c \in InRange |-> IF c \in cs THEN {} ELSE wt[c]]
 Hit(cs)    == HitOf(waiting, cs)
 Done       == released \cup returned
